@@ -6,7 +6,8 @@ from hv.worlds import profile
 hprop.install(globals(), hprop.HistoryProperty(
     prop="C07",
     monitors=lambda: [C07Location()],
-    profile=profile(nv=(2, 6), n_requests=(0, 25), socs=[0.02, 0.1, 0.3, 0.8, 0.97]),
+    profile=profile(nv=(2, 6), n_requests=(0, 25), socs=[0.02, 0.1, 0.3, 0.8, 0.97], steps=[1, 2, 5, 15, 30, 45, 60, 60, 90, 120, 300, 600],
+                    nets=["hav", "gen", "gen", "denver"]),
     nontrivial=lambda f: {"stationary_entered", "stationary_instruction_remote_target", "arrival_by_default_transition"} <= f,
     rule=("stateful histories over generated worlds on straight-line, generated street-graph and Denver networks; directives biased "
           "to stationary instructions naming far-away stations/bases, instructions from mid-link, every activity as starting point; "
